@@ -3,7 +3,9 @@
 # Runs one check against /repo's current working tree (imported from /repo/python, no cache).
 cd "$(dirname "$0")"
 ./setup.sh >/dev/null 2>&1 || { ./setup.sh; echo "HARNESS-ERROR setup failed"; exit 2; }
-export PYTHONPATH=/repo/python:/verif
+REPO_DIR=${VERIF_REPO:-/repo}
+export VERIF_REPO=$REPO_DIR
+export PYTHONPATH=$REPO_DIR/python:$(pwd)
 export PYTHONHASHSEED=0
 export PYTHONDONTWRITEBYTECODE=1
 export LSST_DAF_RELATION_VERIF=1
